@@ -57,12 +57,8 @@ NDimsObj(o) == Len(ShapeObj(o))
 \* first failing well-formedness clause of an object, or "ok"
 WhyWF(o, strict) ==
   CASE o.kind = "dense"  -> IF Len(o.v) = Prod(o.shape) THEN "ok" ELSE "dense-size"
-    [] o.kind = "sparse" ->
-         LET w == WFWhy(AsS(o))
-         IN  IF w = "explicit-zero" /\ ~strict THEN "ok" ELSE w
-    [] o.kind = "sptenmat" ->
-         LET w == WFWhy(SptenmatAsS(o))
-         IN  IF w = "explicit-zero" /\ ~strict THEN "ok" ELSE w
+    [] o.kind = "sparse" -> IF strict THEN WFWhy(AsS(o)) ELSE WFWhyNZ(AsS(o))
+    [] o.kind = "sptenmat" -> IF strict THEN WFWhy(SptenmatAsS(o)) ELSE WFWhyNZ(SptenmatAsS(o))
     [] o.kind = "ktensor" -> IF WFK(o) THEN "ok" ELSE "ktensor-factor-shape"
     [] o.kind = "ttensor" -> IF WFT(o) THEN "ok" ELSE "ttensor-factor-shape"
     [] OTHER -> "ok"
